@@ -87,6 +87,14 @@ def guard_state(s, model):
         k = np.asarray(model.complex_watson.concentration)
         if (k <= 0).any() or (k >= s.tkw.get('max_concentration', 500) * (1 - 1e-9)).any():
             g.append('watson-concentration-clipped')
+    if s.kind in ('gmm', 'gcacgmm'):
+        # likelihood singularity of Gaussian mixtures: a component collapsing onto a single observation has its variance limited
+        # by the rounding of x - mean (~ eps^2 |x|^2); from there on the arithmetic, not EM, decides the likelihood
+        cov = np.asarray(model.gaussian.covariance, dtype=float)
+        ref = float(np.var(s.data['e'] if s.kind == 'gcacgmm' else s.data['y']))
+        small = np.linalg.eigvalsh(cov).min() if (cov.ndim >= 2 and type(model.gaussian).__name__ == 'Gaussian') else cov.min()
+        if small < 1e-12 * ref:
+            g.append('gaussian-component-collapsed')
     w = np.asarray(model.weight, dtype=float)
     if w.size and w.min() < 1e-12:
         g.append('class-without-mass')
